@@ -1036,6 +1036,10 @@ def gen_map_blocks(tier):
             yield [inp(shape, chunks)], dict(mode="drop_axis")
         yield [inp(shape, chunks)], dict(mode="new_axis")
         yield [inp(shape, chunks), inp(shape, chunks)], dict(mode="two")
+        if shape in ((5,), (3, 5)):
+            # a NumPy array as one of the arguments (coerced inside map_blocks), in either position
+            yield [inp(shape, chunks)], dict(mode="numpy-first")
+            yield [inp(shape, chunks)], dict(mode="numpy-second")
 
 
 def _bid_ref(a, chunks):
@@ -1064,6 +1068,11 @@ def _mb_build(xs, p):
         return c.map_blocks(lambda a: a[None, ...] * 2, x, dtype=x.dtype, new_axis=0)
     if mode == "two":
         return c.map_blocks(lambda a, b: a - 2 * b, x, xs[1], dtype=x.dtype)
+    if mode in ("numpy-first", "numpy-second"):
+        k = np.full((1,) * x.ndim, 3.0)  # a single broadcastable block
+        if mode == "numpy-first":
+            return c.map_blocks(lambda b, a: a - 2 * b, k, x, dtype=x.dtype, chunks=x.chunks)
+        return c.map_blocks(lambda a, b: a - 2 * b, x, k, dtype=x.dtype, chunks=x.chunks)
     raise KeyError(mode)
 
 
@@ -1080,6 +1089,8 @@ def _mb_ref(ns, p):
         return a[None, ...] * 2
     if mode == "two":
         return a - 2 * ns[1]
+    if mode in ("numpy-first", "numpy-second"):
+        return a - 6.0
 
 
 reg("map_blocks", lambda tier: ((i, dict(p, _chunks=i[0]["chunks"])) for i, p in gen_map_blocks(tier)), _mb_build, _mb_ref, group="top")
